@@ -10,6 +10,8 @@ void __CPROVER_assume(bool);
 void __VERIFIER_assert(bool);
 void verif_observe(long tag, long value);
 }
+// fork one path per feasible value (<= max) of a small symbolic size; on each path the result is a concrete number (engine builtin; identity natively)
+extern "C" unsigned long verif_concretize(unsigned long n, unsigned long max);
 #define ASSUME(c) __CPROVER_assume(c)
 #define CHECK(c) __VERIFIER_assert(c)
 
